@@ -287,7 +287,8 @@ pub fn run_c05(thorough: bool, seed: u64, shards: usize) -> (Report, String) {
     // processes: the first `np_cases` cases hashed by P fresh processes
     let procs = if thorough { 8 } else { 4 };
     let np_cases: u64 = if thorough { 200_000 } else { 20_000 };
-    let exe = std::env::current_exe().expect("exe");
+    let c05_work = crate::report::out_dir().join("work").join(format!("c05-{}", std::process::id()));
+    let exe = bytes::private_exe(&c05_work);
     let kids: Vec<_> = (0..procs)
         .filter_map(|p| {
             let mut c = Command::new(&exe);
@@ -357,6 +358,7 @@ pub fn run_c05(thorough: bool, seed: u64, shards: usize) -> (Report, String) {
     } else {
         rep.inconclusive("fewer than two determinism child processes completed");
     }
+    let _ = std::fs::remove_dir_all(&c05_work);
     let rule = format!(
         "{} histories (three quarters from a collision profile: sibling names a-b/a_b/a.b/aB/Foo/foo..., attribute/child/text identifier clashes, repeated parents with empty occurrences; one quarter general), each parsed and rendered {} more times in the same thread (fresh RandomState per HashMap), every 8th also by {} threads (independent parse+render and concurrent rendering of one shared tree), and the first {} cases by {} fresh processes compared by 128-bit hash — the processes execute the cases in different orders (forward, backward, shuffled: state leaking between calls would show) and under different environments (locale/time zone/cwd; HOME pointing nowhere and the `log` sink switched off while it is on at Trace level elsewhere; empty environment). A canary HashMap filled with the same child names records whether iteration orders actually varied; non-trivial = cases (>= 3 sibling names) where >= 2 canary orders were seen; distinct by rendered bytes.",
         n, reps, threads, np_cases, procs
